@@ -7,6 +7,7 @@ LIBS = {
 
 PROPS = {
     "C01": {
+        "timeouts_not_mine": True,
         "lean_modules": ["Props.Clean", "Props.Cells", "Props.Facts19"],
         "groups": [{"name": "render", "quick": 2500, "thorough": 60000}, {"name": "C01misc", "quick": 2000, "thorough": 60000},
                    {"name": "C14", "quick": 1500, "thorough": 40000}, {"name": "C06", "quick": 1200, "thorough": 30000, "workers": 12}],
@@ -18,6 +19,7 @@ PROPS = {
         "assumptions": ["items (Post/Actor/Activity/Failure String, Preview, Name) and UI frames are covered at model level through the Clean closure theorems and differentially in C06/C07"],
     },
     "C12": {
+        "timeouts_not_mine": True,
         "groups": [{"name": "render", "quick": 3000, "thorough": 80000}],
         "rule": "documents from grammars of HTML (inline styles, links, media, blockquotes, lists, headings, pre, hr, unknown tags, character-reference and raw control-character injections), Markdown, gemtext and plain text with URLs x sequences of 1..4 widths (-3..250); "
                 "every link / image / frame gets a unique label text and target from the generator; predicates on the implementation's output: the superscript number printed after a label opens (links[k-1]) that label's own target, and the numbers 1..N are all shown; non-trivial = the document has links; distinct by op content",
@@ -25,6 +27,7 @@ PROPS = {
         "assumptions": ["adjacent numbers without any text between them (two empty anchors in a row) are visually ambiguous; the property is stated on the numbers as emitted (ghost labels), see DESIGN.md"],
     },
     "C14": {
+        "timeouts_not_mine": True,
         "lean_modules": ["Props.Cells", "Props.Clean"],
         "groups": [{"name": "C14", "quick": 4000, "thorough": 100000}, {"name": "render", "quick": 1500, "thorough": 40000}],
         "rule": "style expressions (nesting and concatenation of the eight style functions over texts with newlines, blanks, tabs, wide characters) optionally followed by 0..3 layout steps (wrap, dumbwrap, pad, indent, snip, quote, header, bullet, link, linkblock); a terminal state machine is run on the implementation's output: per-character attributes must equal the enclosing style functions, and no attribute may be active at a line break or at the end; plus the render group; "
@@ -180,6 +183,7 @@ PROPS = {
         "assumptions": ["the hook is non-empty (Config.Safe, C19)"],
     },
     "C15": {
+        "timeouts_not_mine": True,
         "lean_modules": ["Props.C13s"],
         "groups": [{"name": "render", "quick": 2500, "thorough": 60000}],
         "rule": "documents from grammars of HTML (inline styles, links, media, blockquotes, lists, headings, pre, hr, unknown tags, character-reference injections), Markdown, gemtext and plain text with URLs x sequences of 1..4 widths (with repeats and returns to earlier widths; -3..250); the same Markup value is rendered at each width in order; "
